@@ -413,11 +413,11 @@ impl<C: ?Sized> rkyv::CheckBytes<C> for ArchivedDecimal {
         value: *const Self,
         context: &mut C,
     ) -> Result<&'a Self, Self::Error> {
-        i128::check_bytes(core::ptr::addr_of!((*value).coeff), context)
-            .map_err(|error| Self::Error {
-                field_name: "coeff",
-                inner: alloc::boxed::Box::new(error),
-            })?;
+        // Every bit pattern is a valid i128, so there's nothing to check for
+        // `coeff`. `i128::check_bytes` must not be called here: the struct is
+        // packed, so the field may be unaligned (i. e. whenever the archived
+        // value is an element of a container), but `i128::check_bytes`
+        // creates a reference to the field.
         u8::check_bytes(core::ptr::addr_of!((*value).n_frac_digits), context)
             .map_err(|error| Self::Error {
                 field_name: "n_frac_digits",
